@@ -224,6 +224,19 @@ func directionA(t *vk.T, idx int, dir string) {
 	conf := a.conf(upw, opw)
 	conf.Permissions = perm
 	if err := safely(func() error { return api.EncryptFile(in, out, conf) }); err != nil {
+		// A password without a prepared form (SASLprep fails; outside PDFDocEncoding) has no
+		// entries under the algorithms: refusing to encrypt with it is the conforming answer.
+		r := 4
+		if high {
+			r = 6
+		}
+		_, uok := prepare(r, upw)
+		_, ook := prepare(r, opw)
+		if (!uok || !ook) && !strings.Contains(err.Error(), "panic") {
+			t.Eval(fmt.Sprintf("A|%s|%s|%s|%s|refused", a.Name, version, upw, opw))
+			t.Count("dirA_unpreparable_password_refused", 1)
+			return
+		}
 		t.Count("dirA_encrypt_errors", 1)
 		rc.Msg = err.Error()
 		t.Violate(fmt.Sprintf("dirA/alg=%s/pdf=%s/encrypt-%s", a.Name, version, errClass(err)), "EncryptFile of a minimal valid document failed: "+err.Error(), rc)
